@@ -24,11 +24,7 @@ def _rename(text, old, new):
 
 
 _LL = {k: _rename(v, 'choice', 'i') for k, v in N.LOGLOGIT_ENSURES.items()}
-contract(M + 'logit.loglogit', P, types=_UD, modifies=[],
-         requires={'python_dict': 'c05c_dict_wf(av)'},
-         raises={'TypeError': N._NOT_OPERAND.format('i')},
-         ensures={k: v.replace('NODE', 'result') for k, v in _LL.items()},
-         replay='''
+_REPLAY_LOGIT = '''
 # loglogit on the real Python evaluator against -log sum_{available j} exp(V_j - V_c)  (fixed candidates)
 import logging, math, warnings
 logging.disable(logging.CRITICAL); warnings.filterwarnings('ignore')
@@ -47,7 +43,12 @@ for V, av, ch in cands:
         violated = True
         detail = f'loglogit(V={V}, av={av}, {ch}) = {got!r} (logit {gp!r}); kernel over the arguments gives {want!r}'
         break
-''')
+'''
+contract(M + 'logit.loglogit', P, types=_UD, modifies=[],
+         requires={'python_dict': 'c05c_dict_wf(av)'},
+         raises={'TypeError': N._NOT_OPERAND.format('i')},
+         ensures={k: v.replace('NODE', 'result') for k, v in _LL.items()},
+         replay=_REPLAY_LOGIT)
 
 
 _CHILD = "typed(result.child, 'LogLogit')"
@@ -58,6 +59,7 @@ contract(M + 'logit.logit', P, types=_UD, modifies=[],
          ensures={'value_is_exp_of_child': "c05c_val(result) == app('numpy.exp', c05c_val(result.child))",
                   'child_is_loglogit_node': 'isinstance(result.child, LogLogit)',
                   **{'child_' + k: v for k, v in _CHILD_ENS.items()}},
+         replay=_REPLAY_LOGIT,
          note='logit returns exp(.) of a log-logit node built from the same arguments (same dictionaries: keys by position, '
               'values by key, chosen alternative): its value is exp of the kernel proved for loglogit; exp(-log s) = 1/s and '
               'exp(-inf) = 0 are lemmas about the uninterpreted transcendental functions (checked numerically by the '
@@ -88,13 +90,34 @@ _NODE_UTIL = (f"len({_RES}.util) == len(util) and forall(lambda q: keys_of({_RES
 LOGMEV_ENSURES = {
     'kernel': f"c05c_cut('kernel:terms-agree', lambda: implies({_A_AV_M}, forall(lambda q: {_F} == {_T_AV_M}, 0, len(util)))) and "
               f"c05c_cut('kernel:sums-agree', lambda: implies({_A_AV_M}, {_S_RES} == sum_range(lambda q: {_T_AV_M}, 0, len(util)))) and "
-              f"implies({_A_AV_M}, c05c_val({_RES}) == -app('numpy.log', sum_range(lambda q: {_T_AV_M}, 0, len(util))))",
-    'unavailable_choice': f"implies({_A_UNAV_M}, c05c_val({_RES}) == -c05c_inf())",
+              f"implies({_A_AV_M}, c05c_val(result) == -app('numpy.log', sum_range(lambda q: {_T_AV_M}, 0, len(util))))",
+    'unavailable_choice': f"implies({_A_UNAV_M}, c05c_val(result) == -c05c_inf())",
     'kernel_full_choice_set':
         f"c05c_cut('kernel_full:terms-agree', lambda: implies({_A_FULL_M}, forall(lambda q: {_F} == {_T_FULL_M}, 0, len(util)))) and "
         f"c05c_cut('kernel_full:sums-agree', lambda: implies({_A_FULL_M}, {_S_RES} == sum_range(lambda q: {_T_FULL_M}, 0, len(util)))) and "
-        f"implies({_A_FULL_M}, c05c_val({_RES}) == -app('numpy.log', sum_range(lambda q: {_T_FULL_M}, 0, len(util))))",
+        f"implies({_A_FULL_M}, c05c_val(result) == -app('numpy.log', sum_range(lambda q: {_T_FULL_M}, 0, len(util))))",
 }
+_REPLAY_MEV = '''
+# logmev / mev on the real Python evaluator against (V_c + lnG_c) - log sum_{available j} exp(V_j + lnG_j)  (fixed candidates)
+import logging, math, warnings
+logging.disable(logging.CRITICAL); warnings.filterwarnings('ignore')
+from biogeme.expressions import Numeric, Beta
+from biogeme.models import logmev, mev
+cands = [({1: 0.3, 3: -0.2}, {1: 0.5, 3: -1.0}, {1: 1.0, 3: 1.0}, 3), ({1: 0.3, 3: -0.2, 4: 1.1}, {1: 0.1, 3: 0.2, 4: -0.4}, {1: 1.0, 3: 0.0, 4: 1.0}, 4),
+         ({1: 0.5, 2: 1.5, 4: -2.0}, {1: -0.3, 2: 0.7, 4: 0.0}, None, 2), ({2: 1.0}, {2: 3.0}, {2: 1.0}, 2)]
+violated = False
+for V, G, av, ch in cands:
+    U = {k: Beta(f'b{k}', v, None, None, 0) for k, v in V.items()}
+    LG = {k: Numeric(v) for k, v in G.items()}
+    A = None if av is None else {k: Numeric(v) for k, v in av.items()}
+    got = logmev(U, LG, A, ch).get_value()
+    want = -math.log(sum(math.exp((V[j] + G[j]) - (V[ch] + G[ch])) for j in V if av is None or av[j] != 0))
+    gp = mev(U, LG, A, ch).get_value()
+    if abs(got - want) > 1e-12 * max(1.0, abs(want)) or abs(gp - math.exp(want)) > 1e-12:
+        violated = True
+        detail = f'logmev(V={V}, lnG={G}, av={av}, {ch}) = {got!r} (mev {gp!r}); the MEV kernel over the arguments gives {want!r}'
+        break
+'''
 _UDM = {'util': 'dict[int, Expression]', 'log_gi': 'dict[int, Expression]', 'av': 'dict[int, Expression] | None'}
 _H_DICT = (f"len(h) == len(util) and forall(lambda q: keys_of(h)[q] == keys_of(util)[q] and "
            f"c05c_val(h[keys_of(util)[q]]) == {_H(_KM)}, 0, len(util)) and "
@@ -107,4 +130,15 @@ contract(M + 'mev.logmev', P, types=_UDM, modifies=[],
          requires={'python_dict': 'c05c_dict_wf(av)',
                    'generating_terms_for_every_alternative': 'forall(lambda q: keys_of(util)[q] in log_gi, 0, len(util))'},
          raises={'TypeError': N._NOT_OPERAND.format('choice')},
-         ensures=LOGMEV_ENSURES)
+         ensures=LOGMEV_ENSURES, replay=_REPLAY_MEV)
+
+_REQ_M = {'python_dict': 'c05c_dict_wf(av)',
+          'generating_terms_for_every_alternative': 'forall(lambda q: keys_of(util)[q] in log_gi, 0, len(util))'}
+contract(M + 'mev.mev', P, types=_UDM, modifies=[], requires=_REQ_M,
+         raises={'TypeError': N._NOT_OPERAND.format('choice')},
+         ensures={
+             'kernel': f"implies({_A_AV_M}, c05c_val(result) == app('numpy.exp', -app('numpy.log', sum_range(lambda q: {_T_AV_M}, 0, len(util)))))",
+             'unavailable_choice': f"implies({_A_UNAV_M}, c05c_val(result) == app('numpy.exp', -c05c_inf()))",
+             'kernel_full_choice_set': f"implies({_A_FULL_M}, c05c_val(result) == app('numpy.exp', -app('numpy.log', sum_range(lambda q: {_T_FULL_M}, 0, len(util)))))"},
+         replay=_REPLAY_MEV,
+         note='value == exp(log-MEV kernel): term equality; exp(-log s) = 1/s, exp(-inf) = 0 are lemmas about the uninterpreted functions')
